@@ -197,6 +197,7 @@ fn final_state(dmd: &mut Dmd) -> String {
 struct Ctx {
     dmd: Dmd,
     tick: u64,
+    nvslot: Vec<u8>,
 }
 
 fn step_clock(ctx: &Ctx) {
@@ -374,6 +375,55 @@ fn exec_op(ctx: &mut Ctx, tok: &str) -> String {
         "fs" => final_state(&mut ctx.dmd).replace(' ', ";"),
         // annotation for the monitors: no effect
         "X" => "-".into(),
+        // ---- whole-system ops (implementation only; used by the C01 monitor) ----
+        // bt:<max>  step until the PSW priority level has been 0 on 200 consecutive samples (one per 10000 steps)
+        "bt" => {
+            let max = a(1);
+            let mut n: u64 = 0;
+            let mut quiet = 0;
+            while n < max && quiet < 200 {
+                for _ in 0..10000 {
+                    step_clock(ctx);
+                    ctx.dmd.step();
+                }
+                n += 10000;
+                if (ctx.dmd.get_psw() >> 13) & 0xf == 0 {
+                    quiet += 1;
+                } else {
+                    quiet = 0;
+                }
+            }
+            if quiet >= 200 {
+                format!("b{:x}", n)
+            } else {
+                "bx".into()
+            }
+        }
+        // da / dk: drain the RS-232 / keyboard transmit queue
+        "da" | "dk" => {
+            let mut s = String::from("t");
+            let mut first = true;
+            loop {
+                let c = if f[0] == "da" { ctx.dmd.rs232_tx() } else { ctx.dmd.keyboard_tx() };
+                match c {
+                    Some(c) => {
+                        let _ = write!(s, "{}{:x}", if first { "" } else { "," }, c);
+                        first = false;
+                    }
+                    None => break,
+                }
+            }
+            s
+        }
+        "nsv" => {
+            ctx.nvslot = ctx.dmd.get_nvram().to_vec();
+            "-".into()
+        }
+        "nrs" => {
+            let v = ctx.nvslot.clone();
+            ctx.dmd.set_nvram(&v);
+            "-".into()
+        }
         _ => panic!("unknown op '{}'", tok),
     }
 }
@@ -564,9 +614,11 @@ fn main() {
         let mut ctx = Ctx {
             dmd: Dmd::new(),
             tick: 0,
+            nvslot: Vec::new(),
         };
         let mut panicked = false;
-        for tok in &toks[1..] {
+        let start = if toks.len() > 1 && toks[1] == "S" { 2 } else { 1 };
+        for tok in &toks[start..] {
             let r = catch_unwind(AssertUnwindSafe(|| exec_op(&mut ctx, tok)));
             match r {
                 Ok(s) => obs.push(s),
